@@ -12,7 +12,7 @@ ROOT="$(cd "$(dirname "$0")" && pwd)"
 cd "$ROOT"
 ID="${1:?property id}"
 SEED="${2:-0}"
-RUNS="${3:-${MQV_FUZZ_RUNS:-400000}}"
+RUNS="${3:-${MQV_FUZZ_RUNS:-1000000}}"
 PROCS="${4:-${MQV_FUZZ_PROCS:-8}}"
 export CARGO_NET_OFFLINE=true
 export MQV_ROOT="$ROOT"
